@@ -607,7 +607,6 @@ Section Lex.
     | _, _ => false
     end.
 
-  Definition bad_lexeme_text (c : N) : str := s "No matchable token for '" ++ [c] ++ s "' lexeme".
 
   (* one turn of get_next_token's loop (flattened: splice skip, sub-parsers, end, bad lexeme) *)
   Definition step (x : st) : stepres :=
@@ -624,7 +623,8 @@ Section Lex.
           | PTok t x' => StepItem (ITok t (off x) (off x')) x'
           | PExn e => StepExn e
           | PNone =>
-              let d := mkdiag (s "BAD_LEXEME") (bad_lexeme_text c) lv_error [mkhl (line x) (col x) (Some 1) None] in
+              (* Error.from_name BAD_LEXEME (catalogue text) and one highlight of length 1 whose hint is the quoted character *)
+              let d := from_name (s "BAD_LEXEME") lv_error [mkhl (line x) (col x) (Some 1) (Some ([39%N] ++ [c] ++ [39%N]))] in
               let x' := advance 1 (set_pos (line x) (col x + 1) (add_err d x)) in
               StepItem (IBad (off x)) x'
           end
